@@ -759,6 +759,32 @@ class Gen:
             self.q.feat.add("selectmany_inside")
             self.q.ops += 2
             return src, self.q
+        if "selectmany_inside" in self.allow and self.r.random() < 0.12:
+            # rows made by an inner loop nested in an outer one (SelectMany inside SelectMany): every row holds columns of
+            # the outer object, of the inner object and of both
+            v = self.q.var("e")
+            self.cur_event = v
+            s1 = self.objseq(v, [], 1)
+            o1, o2 = self.q.var("j"), self.q.var("t")
+            if self.r.random() < 0.5:
+                s2 = self.objseq(v, [o1], 1)
+            else:
+                s2 = f"{o1}.{self.r.choice(['vals', 'hits'])}()"
+            cols = []
+            for _ in range(self.r.choice([2, 3, 3])):
+                pick = self.r.random()
+                if pick < 0.35:
+                    cols.append(self.obj_scalar(o1, 1)[0])
+                elif pick < 0.7:
+                    cols.append(self.obj_scalar(o2, 1)[0] if "(" in s2 and not s2.startswith(o1 + ".") else o2)
+                else:
+                    a = self.obj_scalar(o1, 0)[0]
+                    b = self.obj_scalar(o2, 0)[0] if not s2.startswith(o1 + ".") else o2
+                    cols.append(f"({a} - {b})")
+            src += f".SelectMany(lambda {v}: {s1}.SelectMany(lambda {o1}: {s2}.Select(lambda {o2}: ({', '.join(cols)}))))"
+            self.q.feat.add("selectmany_nested_rows")
+            self.q.ops += 3
+            return src, self.q
         if self.r.random() < 0.3:
             v = self.q.var("e")
             self.cur_event = v
@@ -888,7 +914,7 @@ PRED_GRAFTS = {
     "cmp_in": "{a} in {b}",
     "cmp_is": "{a} is {b}",
 }
-ROW_GRAFTS = ["raw_object", "raw_collection", "column_count_few", "column_count_many"]
+ROW_GRAFTS = ["raw_object", "raw_collection", "raw_event", "column_count_few", "column_count_many"]
 _BLK = lambda name, line: {"metadata_type": "inject_code", "name": name, "body_includes": [line]}
 _JOB = lambda name, line, deps=(): {"metadata_type": "add_job_script", "name": name, "script": [line], "depends_on": list(deps)}
 MD_GRAFTS = {
@@ -936,6 +962,14 @@ def gen_grafted(rng: random.Random, uni: Universe, kind: str, depth: int = 2):
                 src = rng.choice([f"ds.Select(lambda {v}: {s}.First())", f"ds.SelectMany(lambda {v}: {s}).Select(lambda {o}: ({o}, {o}.pt()))"])
             elif kind == "raw_collection":
                 src = f"ds.Select(lambda {v}: {s})"
+            elif kind == "raw_event":
+                # the event object itself as (part of) what is written: a Where that nothing follows, the event next to good
+                # columns, the event captured as the value of an inner sequence
+                o = q.var("j")
+                src = rng.choice([f"ds.Where(lambda {v}: {s}.Count() > 0)",
+                                  f"ds.Select(lambda {v}: ({s}.Count(), {v}))",
+                                  f"ds.Select(lambda {v}: {s}.Select(lambda {o}: {v}))",
+                                  f"ds.Select(lambda {v}: {{'n': {s}.Count(), 'ev': {v}}})"])
             elif kind == "column_count_few":
                 src = f'ds.Select(lambda {v}: ({s}.Count(), {c2})).AsROOTTTree("f.root", "t", ["only"])'
             elif kind == "column_count_many":
